@@ -9,7 +9,7 @@ import (
 
 func init() {
 	registerProperty(&Property{
-		ID: "C20",
+		ID:          "C20",
 		Explanation: "Decides structural necessary conditions of metric scoping and transport (narrow): (R1) Scope.GobEncode and GobDecode both walk the metric registry in index order — encode fills position i from metric i, decode stores element i into metric i — and decode rejects a length mismatch before storing anything; (R2) every instance type a metric can create is gob-registered, has only exported fields (gob drops the others silently), and merging adds the other instance's value atomically; Merge folds each registered metric of the source into the destination's instance and Reset copies or clears every metric; (R3) the local executor clears the task's scope before running it and runs user code under a context scoped to the task; the worker runs user code under the task's scope and copies it into the reply on every exit; the driver adopts the reply's scope only on the success arm, before the task becomes OK; Result.Scope merges every task of the graph exactly once. Not decided: the arithmetic of merging beyond its shape, end-to-end totals.",
 		Rules: []Rule{
 			{ID: "C20-R1", Doc: "scope transport walks the registry in index order on both sides", Run: c20r1},
